@@ -98,6 +98,8 @@ type world struct {
 	emitted    map[string]bool       // every cookie value the deployment ever emitted (name=value)
 	allRandoms map[string]string     // random value -> kind (distinctness oracle)
 	pendingAnswer *tokenAnswer
+	markersSent map[int][]string // values containing markup that this browser has sent in any earlier request (they may be stored in its session)
+	rateLimit  int
 	answerByCode map[string]tokenAnswer // concurrent batches: the provider's answer per authorization code
 	schedInfo  *scheduler
 	born       map[string]int64 // "browser/name" -> unix time the cookie value was set (securecookie rejects values older than 30 days)
@@ -108,7 +110,8 @@ type world struct {
 	jtiSeen    map[string]bool
 }
 
-var rawURIs = []string{"/x", "/a/b?c=d&e=f", "/", "//evil.test/p", "/\\evil.test/p", "/%2Fevil.test", "/.//evil.test", "/x/../../evil.test", "/p?next=http://evil.test/", "/@evil.test", "/deep/path/with/segments?q=1"}
+var rawURIs = []string{"/x", "/a/b?c=d&e=f", "/", "//evil.test/p", "/\\evil.test/p", "/%2Fevil.test", "/.//evil.test", "/x/../../evil.test", "/p?next=http://evil.test/", "/@evil.test", "/deep/path/with/segments?q=1",
+	"/./%5Cevil.test/", "/a/../%5Cevil.test/x", "/%09/evil.test/", "/./%2Fevil.test/", "/a/%2E%2E/%2Fevil.test", "/%5C%5Cevil.test", "/x/..%2F..%2F%5Cevil.test"}
 
 func (w *world) sym(v string) string {
 	if v == "" {
@@ -140,7 +143,7 @@ func s256(v string) string {
 
 func newWorld(sc int, rng interface{ Intn(int) int }) *world {
 	w := &world{sc: sc, syms: map[string]string{}, toks: map[string]*hTok{}, lastInit: map[int]*initRec{}, allInits: map[int][]*initRec{}, codes: map[string]*issuedCode{},
-		loggedIn: map[int]bool{}, tampered: map[int]bool{}, loginTok: map[int]*hTok{}, loginAt: map[int]int64{}, emitted: map[string]bool{}, allRandoms: map[string]string{}, rtOf: map[int]string{}, loggedOut: map[int]bool{}, jtiSeen: map[string]bool{}, born: map[string]int64{}, answerByCode: map[string]tokenAnswer{}}
+		loggedIn: map[int]bool{}, tampered: map[int]bool{}, loginTok: map[int]*hTok{}, loginAt: map[int]int64{}, emitted: map[string]bool{}, allRandoms: map[string]string{}, rtOf: map[int]string{}, loggedOut: map[int]bool{}, jtiSeen: map[string]bool{}, born: map[string]int64{}, answerByCode: map[string]tokenAnswer{}, markersSent: map[int][]string{}}
 	w.p = newProvider(keys()["p256a"], keys()["rsa2048a"])
 	w.pkce = rng.Intn(2) == 0
 	w.force = rng.Intn(3) == 0
@@ -151,17 +154,27 @@ func newWorld(sc int, rng interface{ Intn(int) int }) *world {
 	w.excluded = [][]string{nil, {"/public"}, {"/public", "/health"}}[rng.Intn(3)]
 	w.domains = [][]string{nil, {"example.com"}, {"example.com", "corp.test"}}[rng.Intn(3)]
 	w.roles = [][]string{nil, nil, {"admin"}, {"admin", "dev"}}[rng.Intn(4)]
-	switch rng.Intn(3) {
+	switch rng.Intn(4) {
 	case 1:
 		w.tmpls = []tmplCfg{{name: "X-Tpl-Email", text: "{{.Claims.email}}"}, {name: "X-Tpl-Fail", text: "{{index .Claims.arr 5}}"}}
 	case 2:
 		w.tmpls = []tmplCfg{{name: "Authorization", text: "Bearer {{.AccessToken}}"}, {name: "X-Tpl-Sub", text: "{{.Claims.sub}}-{{.Claims.missing}}"}, {name: "X-Tpl-Rt", text: "{{.RefreshToken}}"}}
+	case 3: // names as an administrator may write them (not in canonical MIME form), templates that fail for some claim shapes
+		w.tmpls = []tmplCfg{{name: "X-Tenant-ID", text: "{{.Claims.org.id}}"}, {name: "x-lower-name", text: "{{index .Claims.arr 5}}"}, {name: "X-USER-Sub", text: "{{.Claims.sub}}"}}
+	}
+	if T.prop == "C10" && rng.Intn(2) == 0 {
+		w.tmpls = []tmplCfg{{name: "X-Tenant-ID", text: "{{.Claims.org.id}}"}, {name: "x-lower-name", text: "{{index .Claims.arr 5}}"}, {name: "X-USER-Sub", text: "{{.Claims.sub}}"}}
 	}
 	for i := range w.tmpls {
 		w.tmpls[i].t = template.Must(template.New(w.tmpls[i].name).Parse(w.tmpls[i].text))
 	}
 	w.logout = "/cb/logout"
+	w.rateLimit = 1000000
+	if T.prop == "C04" && sc%4 == 2 {
+		w.rateLimit = 10 // the minimum a configuration may set: traffic on established sessions must not be subject to it
+	}
 	w.cfgMod = func(c *oidc.Config) {
+		c.RateLimit = w.rateLimit
 		c.EnablePKCE = w.pkce
 		c.ForceHTTPS = w.force
 		c.ExcludedURLs = w.excluded
@@ -190,7 +203,7 @@ func newWorld(sc int, rng interface{ Intn(int) int }) *world {
 		pl = "/"
 	}
 	w.rec(M{"op": "cfg", "excluded": ex, "callback": "/cb", "logout": w.logout, "grace": w.grace, "maxAge": 86400, "pkce": w.pkce, "allowDomains": orEmpty(w.domains), "allowRoles": orEmpty(w.roles),
-		"templates": tn, "endSession": es, "postLogout": pl, "force": w.force})
+		"templates": tn, "endSession": es, "postLogout": pl, "force": w.force, "rateLimit": w.rateLimit})
 	w.p.onExchange = w.exchange
 	return w
 }
@@ -880,6 +893,11 @@ func (w *world) oracles(rs reqSpec, path string, query url.Values, obs M, rec *h
 				T.oracle("C06", "request forwarded although the e-mail domain is not allowed", M{"email": email, "domains": w.domains}, w.replay())
 			}
 		}
+		if tok := w.toks[d.hdrs.Get("X-Auth-Request-Token")]; !w.tampered[w.b] && tok != nil && tok.isJWT {
+			if !tok.hasEmail || tok.email == "" || tok.email != email {
+				T.oracle("C06", "request forwarded with an e-mail that is not the e-mail claim of the verified ID token (missing, empty or wrongly typed claim did not fail closed)", M{"forwarded_as": email, "token_email": tok.email, "token_has_string_email": tok.hasEmail, "note": rs.note}, w.replay())
+			}
+		}
 		if len(w.roles) > 0 {
 			tok := w.toks[d.hdrs.Get("X-Auth-Request-Token")]
 			if !w.refRolesOK(tok) {
@@ -975,6 +993,12 @@ func (w *world) oracles(rs reqSpec, path string, query url.Values, obs M, rec *h
 				markers = append(markers, v)
 			}
 		}
+		// markup this browser sent in earlier requests may come back through its session (remembered URI)
+		for _, old := range w.markersSent[w.b] {
+			if !inList(markers, old) {
+				markers = append(markers, old)
+			}
+		}
 		switch {
 		case strings.HasPrefix(ct, "text/html"):
 			for _, mk := range markers {
@@ -1013,6 +1037,17 @@ func (w *world) oracles(rs reqSpec, path string, query url.Values, obs M, rec *h
 				}
 			}
 		}
+	}
+	// remember the markup this request carried (query values and the raw query itself)
+	for _, vs := range query {
+		for _, v := range vs {
+			if strings.ContainsAny(v, "<>\"'") && !inList(w.markersSent[w.b], v) {
+				w.markersSent[w.b] = append(w.markersSent[w.b], v)
+			}
+		}
+	}
+	if i := strings.IndexByte(rs.rawURI, '?'); i >= 0 && strings.ContainsAny(rs.rawURI[i:], "<>\"'") && !inList(w.markersSent[w.b], rs.rawURI[i+1:]) {
+		w.markersSent[w.b] = append(w.markersSent[w.b], rs.rawURI[i+1:])
 	}
 	// ---- C03 / C08 bookkeeping happens in the scenario drivers (they know the intent of the step)
 }
